@@ -692,7 +692,7 @@ def Ctx.opUnload (c : Ctx) (tn : TName) : Ctx × String :=
   | none => (c, "notloaded")
   | some t => if !t.sessions.isEmpty then (c, "busy") else
     -- handleTopicTimeout: the subscribers are told on `me` that the topic is offline
-    ((if t.name.startsWith "P:" then c else c.presSubsOffline t "off" "" "" "" 0 0 { what := "off" } "" false).terminateTopic t, "")
+    ((if t.name.startsWith "P:" || t.isFnd then c else c.presSubsOffline t "off" "" "" "" 0 0 { what := "off" } "" false).terminateTopic t, "")
 
 /-- sessToForeground (topic.go:831-852) on one group topic the session is attached to -/
 def Ctx.fgTopic (c : Ctx) (sid : Sid) (tn : TName) : Ctx :=
